@@ -49,7 +49,7 @@ type Config struct {
 	Solver    string
 	XSolvers  []string                 // mirrored back-ends (verdicts diffed)
 	Params    map[string]int           // vrt.Param values (bounds chosen by the tier)
-	KnownOpen map[string]string        // finding id -> assert_id it excuses
+	KnownOpen map[string][]string      // finding id -> assertion ids it excuses
 	Concrete  map[string]uint64        // fixed inputs (xval / replay in VM): no solver decisions for these
 	Samples   int
 	MaxFanout int
@@ -354,26 +354,10 @@ func newInterpreter(m *Machine, r *runState) *interpreter {
 	return i
 }
 
-func (r *runState) functionEntered(fn *ssa.Function) {
-	if fn.Pkg == nil && fn.Origin() == nil {
-		return
+func (r *runState) functionEntered(fi *fnInfo) {
+	if _, ok := r.funcs[fi.name]; !ok {
+		r.funcs[fi.name] = fi.instrs
 	}
-	pkg := fn.Pkg
-	if pkg == nil && fn.Origin() != nil {
-		pkg = fn.Origin().Pkg
-	}
-	if pkg == nil || !strings.HasPrefix(pkg.Pkg.Path(), r.ex.cfg.Machine.TargetPrefix) {
-		return
-	}
-	name := fn.String()
-	if _, ok := r.funcs[name]; ok {
-		return
-	}
-	n := 0
-	for _, b := range fn.Blocks {
-		n += len(b.Instrs)
-	}
-	r.funcs[name] = n
 }
 
 // ---- solver plumbing
@@ -743,8 +727,10 @@ func (r *runState) known(assertID string) string {
 	}
 	sort.Strings(ids)
 	for _, f := range ids {
-		if a, ok := r.ex.cfg.KnownOpen[f]; ok && a == assertID {
-			return f
+		for _, a := range r.ex.cfg.KnownOpen[f] {
+			if a == assertID {
+				return f
+			}
 		}
 	}
 	return ""
